@@ -217,6 +217,21 @@ impl World {
         self.tick(1000);
     }
 
+    /// Materialises a second project next to the first one (shared user cache).
+    pub fn add_project(&mut self, p: &Project) -> PathBuf {
+        let dir = self.scratch.path.join("h").join(&p.name);
+        std::fs::create_dir_all(dir.join("src")).unwrap();
+        self.tick(1000);
+        fsutil::write_file(&dir.join("Veryl.toml"), p.toml.render(&p.name).as_bytes());
+        fsutil::set_mtime(&dir.join("Veryl.toml"), self.now);
+        for (f, c) in &p.files {
+            self.tick(1000);
+            fsutil::write_file(&dir.join(f), c.as_bytes());
+            fsutil::set_mtime(&dir.join(f), self.now);
+        }
+        dir
+    }
+
     fn write_toml(&mut self) {
         self.tick(1000);
         let path = self.prj.join("Veryl.toml");
